@@ -77,10 +77,10 @@ def pairpos_subset_keeps_pairs(shape):
 
 
 @kernel('C07', funcs=['subset/__init__.py:subset_glyphs', 'subset/__init__.py:subset', 'subset/__init__.py:remap'],
-        bounds='SinglePos format 1 (one shared value) and format 2 (value per glyph), MarkBasePos (2 marks x 3 bases x 2 classes) with symbolic values, '
+        bounds='SinglePos format 1 (one shared value) and format 2 (value per glyph), MarkBasePos (2 marks x 3 bases x 2 classes; also a sparse variant where two bases have an anchor for one class only) with symbolic values, '
                'symbolic retained set: values / anchors of retained glyphs unchanged, coverage-indexed arrays stay parallel to their coverage, no removed '
                'glyph referenced',
-        quick=[dict(kind='sp1'), dict(kind='sp2'), dict(kind='markbase')], max_paths=100000)
+        quick=[dict(kind='sp1'), dict(kind='sp2'), dict(kind='markbase'), dict(kind='markbase-sparse')], max_paths=100000)
 def gpos_records_follow_glyphs(kind):
     uni = ['a', 'b', 'c', 'd', 'm1', 'm2']
     keep = retained(uni)
@@ -139,6 +139,9 @@ def gpos_records_follow_glyphs(kind):
         br = ot.BaseRecord()
         br.BaseAnchor = []
         for c in range(2):
+            if kind == 'markbase-sparse' and (g, c) in (('a', 0), ('b', 1)):
+                br.BaseAnchor.append(None)          # base a attaches class-1 marks only, base b class-0 marks only
+                continue
             a = ot.Anchor()
             a.Format = 1
             a.XCoordinate, a.YCoordinate = V.int('bs_%s_%d' % (g, c), -1000, 1000), 0
@@ -149,19 +152,33 @@ def gpos_records_follow_glyphs(kind):
     alive = st.subset_glyphs(s)
     observe('alive', bool(alive))
     if not alive:
-        ob('empty-only-if-no-mark-or-no-base-kept', not ({'m1', 'm2'} & keep) or not ({'a', 'b', 'c'} & keep))
+        ob('empty-only-if-no-attachment-kept', not any(m in keep and b in keep and (b, wantm[m][0]) in wantb for m in ('m1', 'm2') for b in ('a', 'b', 'c')))
         return
     ob('no-removed-glyph-referenced', set(st.MarkCoverage.glyphs) | set(st.BaseCoverage.glyphs) <= keep)
-    # attachment of (mark, base): the base anchor of the mark's class and the mark anchor, looked up through the (renumbered) classes
+    ob('arrays-parallel', len(st.BaseArray.BaseRecord) == len(st.BaseCoverage.glyphs) == st.BaseArray.BaseCount
+       and len(st.MarkArray.MarkRecord) == len(st.MarkCoverage.glyphs) == st.MarkArray.MarkCount
+       and all(len(b.BaseAnchor) == st.ClassCount for b in st.BaseArray.BaseRecord))
+    # attachment of (mark, base): the base anchor of the mark's class and the mark anchor, looked up through the (renumbered) classes;
+    # a pair that had no anchor before must have none afterwards (a base may be dropped only when no retained mark attaches to it)
     conds = []
     for m in ('m1', 'm2'):
         for b in ('a', 'b', 'c'):
             if m in keep and b in keep:
+                orig = wantb.get((b, wantm[m][0]))
                 mi = st.MarkCoverage.glyphs.index(m)
-                bi = st.BaseCoverage.glyphs.index(b)
                 mr = st.MarkArray.MarkRecord[mi]
+                if b not in st.BaseCoverage.glyphs:
+                    conds.append(orig is None)
+                    continue
+                bi = st.BaseCoverage.glyphs.index(b)
+                if bi >= len(st.BaseArray.BaseRecord) or mr.Class >= len(st.BaseArray.BaseRecord[bi].BaseAnchor):
+                    conds.append(False)
+                    continue
                 ba = st.BaseArray.BaseRecord[bi].BaseAnchor[mr.Class]
-                conds.append(conj([eq(mr.MarkAnchor.XCoordinate, wantm[m][1]), eq(ba.XCoordinate, wantb[(b, wantm[m][0])])]))
+                if orig is None or ba is None:
+                    conds.append(orig is None and ba is None)
+                else:
+                    conds.append(conj([eq(mr.MarkAnchor.XCoordinate, wantm[m][1]), eq(ba.XCoordinate, orig)]))
     ob('retained-attachments-unchanged', conj(conds))
 
 
